@@ -12,7 +12,7 @@ func init() {
 		ID:         "C08",
 		Level:      "other",
 		Technique:  "one scalar table for both paths (kind-context conformance of the table-driven fast path and of the reflection codec), fast-path gate rule (every use of protoiface.Methods is obtained from protoMethods and nil-guarded, with a reflection fallback), size/append agreement on both paths, option-flag bridges (static)",
-		Explain:    "Decides structural necessary conditions of `fast path and reflection path are indistinguishable`: (1) both paths are checked against the same protobuf scalar table: in every Kind-dependent branch of internal/impl and of package proto the wire primitives, value transforms, Go types and bit sizes are those the Kind prescribes, so the two paths cannot disagree on a field's wire form; (2) every fast-path method used by package proto (Marshal, Unmarshal, Size, Merge, CheckInitialized, Equal) is read from the value returned by protoMethods(m), is called only after `methods != nil` and `methods.F != nil` were established, and each caller contains the reflection fallback; with the protoreflect build tag protoMethods returns nil; (3) the fast path is bypassed when it does not support a requested option (Deterministic, DiscardUnknown); (4) the two deterministic map-key comparators (fast path and reflection path) order every key kind by the direct comparison of the kind's own value; the reflection map decoder allocates an entry's message value once per entry (merging split values like the fast path) and replaces entries with a repeated key; (5) size and append agree on both paths (R-SIZE-APPEND), unknown-field handling and required-field checking are decided for both paths under C09 and C10. Also decided on both paths: every ConsumeTag loop rejects numbers above MaxValidNumber before using them (R-CONSUMETAG-RANGE, so both paths fail on the same tags); the reflection encoder's size and write functions describe the same wire shape (R-REFL-ENC-PARITY) and the fast path's map entry sizer and writers agree (R-MAP-ENTRY-PARITY); the reflection merge clones exactly what the fast path clones (R-MERGE-DESC).",
+		Explain:    "Decides structural necessary conditions of `fast path and reflection path are indistinguishable`: (1) both paths are checked against the same protobuf scalar table: in every Kind-dependent branch of internal/impl and of package proto the wire primitives, value transforms, Go types and bit sizes are those the Kind prescribes, so the two paths cannot disagree on a field's wire form; (2) every fast-path method used by package proto (Marshal, Unmarshal, Size, Merge, CheckInitialized, Equal) is read from the value returned by protoMethods(m), is called only after `methods != nil` and `methods.F != nil` were established, and each caller contains the reflection fallback; with the protoreflect build tag protoMethods returns nil; (3) the fast path is bypassed when it does not support a requested option (Deterministic, DiscardUnknown); (4) the two deterministic map-key comparators (fast path and reflection path) order every key kind by the direct comparison of the kind's own value; the reflection map decoder allocates an entry's message value once per entry (merging split values like the fast path) and replaces entries with a repeated key; (5) size and append agree on both paths (R-SIZE-APPEND), unknown-field handling and required-field checking are decided for both paths under C09 and C10. Also decided on both paths: every ConsumeTag loop rejects numbers above MaxValidNumber before using them (R-CONSUMETAG-RANGE, so both paths fail on the same tags); the reflection encoder's size and write functions describe the same wire shape (R-REFL-ENC-PARITY) and the fast path's map entry sizer and writers agree (R-MAP-ENTRY-PARITY); the reflection merge clones exactly what the fast path clones (R-MERGE-DESC). Also: the reflective decoder merges into Message.Mutable like the table-driven one, and both MessageSet decoders store an unknown item canonically (found D26).",
 		NotCovered: "equality of observable results on concrete messages; dynamicpb and legacy wrappers; the list/map loops of the reflection encoder.",
 		Quick:      all("./proto", "./internal/impl", "./internal/order", "./encoding/protojson", "./encoding/prototext"),
 		Thorough:   []ConfigLoad{{"default", []string{"./..."}}, {"reflect", []string{"./proto"}}},
